@@ -116,7 +116,7 @@ type c34model struct {
 	vio      bool
 	// coverage counters
 	nInflight int // quiescent points with a frame blocked half-way to the stalled client
-	nEarlier  int // frames that reached the client later than the point at which they were written
+	nEarlier  int // frames attributed to an earlier quiescent point than the one at which they were seen
 	nTight    int // DATA frames that used a window or the frame size limit up to the last octet
 	fcErr    string // the server answered a client frame with FLOW_CONTROL_ERROR (observation, not judged)
 	hist     []string
@@ -729,7 +729,7 @@ func c34exec(t *testing.T, r *vk.Run, f *c34family, ch *vk.Chooser, nth int64) {
 		r.Outcome(cls)
 		r.Add("data_frames_checked", int64(m.nData))
 		r.Add("data_frames_exactly_filling_a_limit", int64(m.nTight))
-		r.Add("frames_delivered_after_the_point_they_were_written", int64(m.nEarlier))
+		r.Add("frames_attributed_to_an_earlier_quiescent_point", int64(m.nEarlier))
 		r.Add("quiescent_points_with_frame_blocked_on_stalled_client", int64(m.nInflight))
 		r.Case(ch.CaseID(f.name))
 		r.Nontrivial(f.name + " " + strings.Join(m.hist, " "))
